@@ -38,7 +38,7 @@ def judge(ctx, cases, nontrivial, ex):
             pending.append((c, problems))
         if not problems and ctx.cov["evaluations"] % 1500 == 1:
             ctx.sample({"pa": v["pa"], "pv": v["pv"], "observed": {k: o[k] for k in ("where", "delivered", "invoked", "status", "uri")}})
-    ex.prepare([c["v"] for c, _ in pending])
+    hc.prepare_explanations(ex, cases, [c for c, _ in pending])
     hc.validate_cases(ctx, cases, "C02", skip_ids={c["id"] for c, _ in pending}, ex=ex)
     for c, problems in pending:
         v, o = c["v"], c["obs"]
@@ -53,29 +53,34 @@ def run(ctx):
     quick = ctx.quick()
     ctx.cov["rule"] = ("cases = (method shape, payload value vector) pairs enumerated by TLC from HTTPTransport.tla; non-trivial = some attribute "
                        "outside the body or optional/defaulted; distinct = canonical JSON of (shapes, values)")
-    for d in hc.DEVIATIONS[:5] + ["decode.mapparams_prefix_expected"]:
-        ctx.mc_expect_violation("mc/MC_HTTPTransport", consts={"Deviations": '{"%s"}' % d}, label="MC dev " + d)
-    vectors = hc.gen_vectors(ctx, "req", 1, 1)
     frac = float(__import__("os").environ.get("VERIF_FRAC") or (0.12 if quick else 1.0))
-    vectors = hc.sample_shapes(vectors, frac, ctx.seed)
-    cases, pl = hc.run_family(ctx, "req", vectors)
+
+    def single():
+        return hc.run_family(ctx, "req", hc.sample_shapes(hc.gen_vectors(ctx, "req", 1, 1), frac, ctx.seed))
+
+    def same_location():
+        # two attributes in the same non-body location (two cookies, two headers, two query parameters)
+        allv = hc.gen_vectors(ctx, "req", 1, 1, label="Gen req 1x1 (for pairs)")
+        return hc.run_family(ctx, "req", hc.combine_cases(ctx, allv, 80 if quick else 1500, ctx.seed, mode="sameloc"), name="gen-req-pairs")
+    guards, f1, f2 = hc.side_by_side(ctx, [
+        lambda: hc.expect_violations(ctx, [({"Deviations": '{"%s"}' % d}, "MC dev " + d) for d in hc.DEVIATIONS[:5] + ["decode.mapparams_prefix_expected"]]),
+        single, same_location])
+    guards.result()
+    cases, pl = f1.result()
     for i, f in sorted(pl.failed.items()):
         ctx.notes.append("design d%d not usable: %s" % (i, str(f)[:300]))
     nontrivial = set()
     judge(ctx, cases, nontrivial, hc.Explainer(ctx, "req", 1, 1))
     ctx.cov["designs"] = len(pl.designs)
     ctx.cov["designs_failed"] = len(pl.failed)
-    # two attributes in the same non-body location (two cookies, two headers, two query parameters)
-    allv = hc.gen_vectors(ctx, "req", 1, 1, label="Gen req 1x1 (for pairs)")
-    pairs = hc.combine_cases(ctx, allv, 80 if quick else 1500, ctx.seed, mode="sameloc")
-    casesp, plp = hc.run_family(ctx, "req", pairs)
+    casesp, plp = f2.result()
     judge(ctx, casesp, nontrivial, hc.Explainer(ctx, "req", 2, 1))
     ctx.cov["same_location_pairs"] = len(casesp)
     if ctx.selftest or not quick:
         hc.trace_selftest(ctx, cases)
     if not quick:
         # two-attribute methods: too many to enumerate, seeded pairs of the enumerated single-attribute cases, judged by TLC (Cases_HTTPTransport)
-        uniq = hc.combine_cases(ctx, allv, 4000, ctx.seed)
+        uniq = hc.combine_cases(ctx, hc.gen_vectors(ctx, "req", 1, 1, label="Gen req 1x1 (for pairs)"), 4000, ctx.seed)
         cases2, pl2 = hc.run_family(ctx, "req", uniq)
         judge(ctx, cases2, nontrivial, hc.Explainer(ctx, "req", 2, 1))
         ctx.cov["two_attribute_cases"] = len(cases2)
